@@ -48,6 +48,12 @@ const (
 	readTimeout = 40 * time.Millisecond
 	stallTime   = 130 * time.Millisecond
 	slack       = 2 * time.Second
+	// Timing verdicts (a call with a read timeout returns within timeout + slack; all calls return
+	// within 30 s) are only drawn when the scheduler was demonstrably responsive during the history:
+	// the heartbeat's worst wake-up lateness must stay below this, otherwise the history counts as
+	// inconclusive for timing (all other invariants are still checked).
+	overloaded   = 250 * time.Millisecond
+	inconclusive = "TIMING-INCONCLUSIVE"
 )
 
 // ReqPlan is one planned call.
@@ -88,6 +94,7 @@ type world struct {
 	log        []string
 	hc         *http1.HostClient
 	overshoots int32
+	maxLate    int64 // worst observed wake-up lateness of the heartbeat (ns)
 	// reuse of a connection after a stalled exchange: a violation only if the client's call for
 	// the stalled exchange really failed (decided after all calls returned, from the call results —
 	// under heavy machine load the 40 ms read deadline can lose the race against the 130 ms stall,
@@ -332,6 +339,8 @@ func runPlan(p *Plan) (string, *world) {
 	var rmu sync.Mutex
 	var wg sync.WaitGroup
 	stopSample := make(chan struct{})
+	defer close(stopSample)
+	late := func() time.Duration { return time.Duration(atomic.LoadInt64(&w.maxLate)) }
 	go func() {
 		for {
 			select {
@@ -342,7 +351,12 @@ func runPlan(p *Plan) (string, *world) {
 			if st := hc.ConnPoolState(); st.TotalConnNum > p.MaxConns {
 				w.violate("ConnPoolState().TotalConnNum=%d exceeds MaxConns=%d", st.TotalConnNum, p.MaxConns)
 			}
+			// the sampler doubles as a scheduling heartbeat: how late does a 200 µs sleep wake up?
+			t0 := time.Now()
 			time.Sleep(200 * time.Microsecond)
+			if late := int64(time.Since(t0)); late > atomic.LoadInt64(&w.maxLate) {
+				atomic.StoreInt64(&w.maxLate, late)
+			}
 		}
 	}()
 	for gi, g := range p.Goroutines {
@@ -393,10 +407,12 @@ func runPlan(p *Plan) (string, *world) {
 	select {
 	case <-finished:
 	case <-time.After(30 * time.Second):
-		close(stopSample)
+		if late() > overloaded {
+			return fmt.Sprintf("%s: calls did not return within 30 s, but a 200 µs sleep woke up %v late during the history: the machine is too loaded for a timing verdict", inconclusive, late()), w
+		}
 		return "calls did not return within 30 s (a call with a read timeout or a failing peer must return)", w
 	}
-	close(stopSample)
+	timingOK := late() <= overloaded
 	// per-call invariants
 	byID := map[string]ReqPlan{}
 	for _, g := range p.Goroutines {
@@ -409,7 +425,7 @@ func runPlan(p *Plan) (string, *world) {
 		if res.err == nil && res.body != "id="+res.id {
 			return fmt.Sprintf("call id=%s returned the response %q: not the response to its own request", res.id, res.body), w
 		}
-		if r.Timeout && res.elapsed > readTimeout+slack {
+		if timingOK && r.Timeout && res.elapsed > readTimeout+slack {
 			return fmt.Sprintf("call id=%s with a %v read timeout returned after %v", res.id, readTimeout, res.elapsed), w
 		}
 		if r.Ctx == "cancelled-before" && res.err == nil {
@@ -463,6 +479,9 @@ func runPlan(p *Plan) (string, *world) {
 		msg = check()
 	}
 	if msg != "" {
+		if late() > overloaded {
+			return fmt.Sprintf("%s: not quiescent after 3 s (%s), but the scheduler was %v late", inconclusive, msg, late()), w
+		}
 		return "at quiescence: " + msg, w
 	}
 	// one clean request sweeps the lazily cleaned waiter queue
@@ -499,6 +518,9 @@ func runPlan(p *Plan) (string, *world) {
 		time.Sleep(5 * time.Millisecond)
 	}
 	if msg != "" {
+		if late() > overloaded {
+			return fmt.Sprintf("%s: not quiescent after 3 s (%s), but the scheduler was %v late", inconclusive, msg, late()), w
+		}
 		return "at quiescence (after the final clean request): " + msg, w
 	}
 	w.mu.Lock()
@@ -575,6 +597,14 @@ func TestC10Histories(t *testing.T) {
 		nt, cls := classify(p)
 		rec.Case(nt, ev.HashString(fmt.Sprintf("%+v", *p)), cls...)
 		msg, w := runPlan(p)
+		if time.Duration(atomic.LoadInt64(&w.maxLate)) > overloaded {
+			rec.Class("timing-verdicts-skipped-scheduler-late-over-250ms", 1)
+		}
+		if strings.HasPrefix(msg, inconclusive) {
+			rec.Class("history-abandoned-machine-overloaded", 1)
+			t.Logf("%s", msg)
+			return
+		}
 		if msg != "" {
 			w.mu.Lock()
 			log := strings.Join(w.log, "\n  ")
